@@ -227,3 +227,16 @@ package gzip
 //@   ensures [ignored_path_test_is_the_path_matcher] result == httpserver.Path(r.URL.Path).Matches(value)
 //@ func (PathFilter).ShouldCompress
 //@   requires r != nil && r.URL != nil
+
+//@ unit writer_release frames=on props=C18 filter=`gzip\.putWriter$`
+//@ // C18 "the client can decode what it receives": handing the per-response compressor back is the ONLY place it is closed -
+//@ // closing flushes the pending block and writes the gzip trailer - so it is closed for every configured level, also one
+//@ // the pool table has no entry of its own for
+//@ ghost closes int
+//@ extern (*compress/gzip.Writer).Close
+//@   modifies ghost:closes
+//@   ensures closes == old(closes) + 1
+//@ extern (*sync.Pool).Put
+//@ func putWriter
+//@   modifies ghost:closes
+//@   ensures [the_stream_is_terminated_for_every_level] closes == old(closes) + 1
